@@ -79,4 +79,16 @@ CLAIMED.update({
   "technique": "pointwise SMT obligations for block slicing + non-commutative polynomial rewriting with library contracts as rules (finite matrix interpretation to refute)",
  },
 })
+CLAIMED.update({
+ "C04": {
+  "text": "For all sizes and parameters, from the real source: new-row positions are (-1, k)*pixel_scale; the von Karman stencil is exactly the first n_columns rows, enumerated row-major, positions = coordinates*pixel_scale; pairwise separations (numba kernel, loop summary; parallel iterations write disjoint rows) are the Euclidean distances between (stencil points ++ new-row points); the four covariance blocks are the theoretical covariance function at those separations with the right index ranges, Cov_zz, Cov_xx symmetric and Cov_xz^T = Cov_zx (pointwise); with the contracts of cho_solve (two-sided inverse, or LinAlgError: the refusing path must raise) and svd, the matrix-algebra encoding proves A Cov_zz = Cov_xz and A Cov_zz A^T + B B^T = Cov_xx from the real assignment structure; get_new_row is A.Z + B.b with Z the screen values at the stencil coordinates and b one fresh unit-normal draw of length nx_size; Fried variant: A.(Z - ref) + B.b + ref, and adding a constant to the whole screen adds exactly that constant to the new row. End-to-end black-box extraction of A, B on constructed screens: bounded native stand-in.",
+  "note": BASE + "A-MATH (Schur complement of a PSD matrix is PSD), A-JIT (numba); phase_covariance is an uninterpreted function of the separation here (its closed form is C08); positive definiteness of Cov_zz / success of Cholesky, float32 truncation of the separations and the Fried stencil coordinates (while True / break loops) are not decided deductively.",
+  "technique": "symbolic execution with loop summaries and callee contracts; pointwise SMT obligations; non-commutative polynomial rewriting with library contracts (2x2 interpretation to refute)",
+ },
+ "C05": {
+  "text": "Representation invariant (_scrn.shape = (stencil_length, nx_size), requested <= nx_size <= stencil_length) is established by both constructors (find_allowed_size's while loop by its exit condition, result >= request) and preserved by add_row; add_row, for all sizes: _scrn'[0] is the new row, _scrn'[r] = _scrn[r-1], the exposed screen keeps shape requested x requested (also when the internal size is larger) and is the previous exposed screen shifted down by one row; frame: add_row assigns only self._scrn (a new array), get_new_row (both variants) assigns nothing and writes no array, the screen getter and __repr__ assign nothing, write nothing and draw nothing. By induction the step postcondition holds after any history of add_row / read operations. Histories on real objects: bounded native stand-in.",
+  "note": BASE + "finiteness of values and stability / stationary covariance of the recursion are not decided (numerical linear algebra).",
+  "technique": "symbolic execution of the methods on a symbolic object state (invariant + frame of attributes and arrays), callee contracts; z3",
+ },
+})
 NOT_APPLICABLE = {}
